@@ -46,6 +46,8 @@ var c13labels = []c13lab{
 	/* 22 */ {"local dd = \x01\nlocal function f(p) return p end\nlocal dd = f(dd)\n", 2, true, true, ""},
 	/* 23 */ {"local dd = \x01\nlocal dd = function() return dd end\n", 2, true, true, ""},
 	/* 24 */ {"dd = \x01\nlocal function f(p) return p end\nlocal dd = f(dd)\n", 2, false, true, ""},
+	// the hovered name stands between two bracketed string keys on its line
+	/* 25 */ {"local t = { a = 7, b = 8 }\nlocal dd = \x01\nprint(t[\"a\"], dd, t[\"b\"])\n", 1, true, true, ""},
 }
 
 func VerifRun_C13d() {
